@@ -446,7 +446,9 @@ fn str_bytes(r: Result<Rd<'static>, gimli::Error>) -> J {
 }
 
 fn file_json(dwarf: &gimli::Dwarf<Rd<'static>>, unit: &gimli::Unit<Rd<'static>>, header: Option<&gimli::LineProgramHeader<Rd<'static>>>, index: u64) -> J {
-    let none = json!({"found":false,"dir":[],"name":[]});
+    // an index that names no file entry keeps its number ("unresolved"); a resolved one is
+    // its directory and name
+    let none = json!({"found":false,"dir":[],"name":[],"unresolved":b8(index)});
     let Some(h) = header else { return none };
     let Some(f) = h.file(index) else { return none };
     let name = str_bytes(dwarf.attr_string(unit, f.path_name()));
@@ -454,7 +456,7 @@ fn file_json(dwarf: &gimli::Dwarf<Rd<'static>>, unit: &gimli::Unit<Rd<'static>>,
         Some(d) => str_bytes(dwarf.attr_string(unit, d)),
         None => json!([]),
     };
-    json!({"found":true,"dir":dir,"name":name})
+    json!({"found":true,"dir":dir,"name":name,"unresolved":[]})
 }
 
 fn value_json(
@@ -575,10 +577,10 @@ fn row_json(dwarf: &gimli::Dwarf<Rd<'static>>, unit: Option<&gimli::Unit<Rd<'sta
     let file = match unit {
         Some(u) => file_json(dwarf, u, Some(h), r.file_index()),
         None => match h.file(r.file_index()) {
-            Some(f) => json!({"found":true,
+            Some(f) => json!({"found":true,"unresolved":[],
                 "dir": f.directory(h).map(|d| str_bytes(dwarf.attr_line_string(d))).unwrap_or(json!([])),
                 "name": str_bytes(dwarf.attr_line_string(f.path_name()))}),
-            None => json!({"found":false,"dir":[],"name":[]}),
+            None => json!({"found":false,"dir":[],"name":[],"unresolved":b8(r.file_index())}),
         },
     };
     json!({"addr":b8(r.address()),"op_index":b8(r.op_index()),"file_index":b8(r.file_index()),"file":file,
@@ -791,15 +793,23 @@ fn ca(a: u64) -> Option<Address> {
 
 /// The stepwise convert API used the way its documentation shows; `seed` chooses
 /// between read_row and read_sequence for each line program.
-fn convert_stepwise(from: &gimli::Dwarf<Rd<'static>>, seed: u64, at: &mut String) -> Result<write::Dwarf, write::ConvertError> {
+/// `retarget`: re-encode every unit and its line program for another DWARF version
+/// (`Unit::set_encoding` + `read_line_program(Some(encoding), ..)`).
+/// `with_lines = false`: the caller does not convert line programs (no `set_line_program`,
+/// DW_AT_stmt_list is not copied).
+fn convert_stepwise(from: &gimli::Dwarf<Rd<'static>>, seed: u64, at: &mut String, retarget: Option<u16>, with_lines: bool) -> Result<write::Dwarf, write::ConvertError> {
     let mut rng = Rng::new(seed);
     let mut dwarf = write::Dwarf::new();
     {
         let mut convert = dwarf.convert(from)?;
         while let Some((mut unit, root_entry)) = convert.read_unit()? {
             let by_sequence = rng.chance(1, 2);
+            let enc_override = retarget.map(|version| Encoding { version, ..unit.read_unit.encoding() });
+            if let Some(e) = enc_override {
+                unit.unit.set_encoding(e);
+            }
             let lp = {
-                match unit.read_line_program(None, None)? {
+                match if with_lines { unit.read_line_program(enc_override, None)? } else { None } {
                     None => None,
                     Some(mut cp) => {
                         if by_sequence {
@@ -835,7 +845,7 @@ fn convert_stepwise(from: &gimli::Dwarf<Rd<'static>>, seed: u64, at: &mut String
             }
             let root_id = unit.unit.root();
             for attr in &root_entry.attrs {
-                if attr.name() == c::DW_AT_GNU_locviews {
+                if attr.name() == c::DW_AT_GNU_locviews || (!with_lines && attr.name() == c::DW_AT_stmt_list) {
                     continue;
                 }
                 *at = format!("attr 0x{:x} form 0x{:x} of a root entry", attr.name().0, attr.form().0);
@@ -865,7 +875,11 @@ fn convert_stepwise(from: &gimli::Dwarf<Rd<'static>>, seed: u64, at: &mut String
 fn convert_write(from: &gimli::Dwarf<Rd<'static>>, api: &str, seed: u64, endian: RunTimeEndian) -> Result<Secs, (String, String)> {
     let mut at = String::new();
     let mut w = if api == "stepwise" {
-        convert_stepwise(from, seed, &mut at)
+        convert_stepwise(from, seed, &mut at, None, true)
+    } else if api == "stepwise_nolines" {
+        convert_stepwise(from, seed, &mut at, None, false)
+    } else if let Some(tv) = api.strip_prefix("retarget:") {
+        convert_stepwise(from, seed, &mut at, tv.parse().ok(), true)
     } else {
         write::Dwarf::from(from, &ca)
     }
@@ -905,7 +919,12 @@ fn run_dwarf(base: &str, api: &str, secs: Secs, endian: RunTimeEndian, seed: u64
             return;
         }
     };
-    let (mout2, again): (Vec<UnitDump>, J) = match convert_write(&d1, api, seed, endian) {
+    // the output of a re-targeted conversion is converted again without an override
+    let retarget: Option<u64> = api.strip_prefix("retarget:").and_then(|v| v.parse().ok());
+    let nolines = api == "stepwise_nolines";
+    let api2 = if retarget.is_some() { "stepwise" } else { api };
+    let (kunit, kentry, kseq) = if retarget.is_some() { ("ConvRetargetUnit", "ConvRetargetEntry", "ConvRetargetSeq") } else { ("ConvUnit", "ConvEntry", "ConvLineSeq") };
+    let (mout2, again): (Vec<UnitDump>, J) = match convert_write(&d1, api2, seed, endian) {
         Err((stage, err)) => (Vec::new(), json!({"ok":false,"stage":stage,"err":err})),
         Ok(s2) => match dwarf_dump(&load_dwarf(&s2, endian), endian) {
             Ok(m) => (m, again_ok()),
@@ -926,7 +945,8 @@ fn run_dwarf(base: &str, api: &str, secs: Secs, endian: RunTimeEndian, seed: u64
     for ui in 0..nu {
         let (a, b, c3) = (min.get(ui), mout.get(ui), mout2.get(ui));
         let mut ev = tag();
-        ev["ev"] = json!("ConvUnit");
+        ev["ev"] = json!(kunit);
+        ev["tv"] = json!(retarget.unwrap_or(0));
         ev["unit"] = json!(ui);
         ev["again"] = again.clone();
         let (x, y, z) = pick3(a.map(|u| &u.hdr), b.map(|u| &u.hdr), c3.map(|u| &u.hdr), &absent_unit);
@@ -946,7 +966,7 @@ fn run_dwarf(base: &str, api: &str, secs: Secs, endian: RunTimeEndian, seed: u64
                 continue;
             }
             let mut ev = tag();
-            ev["ev"] = json!("ConvEntry");
+            ev["ev"] = json!(kentry);
             ev["unit"] = json!(ui);
             ev["idx"] = json!(ei);
             ev["again"] = again.clone();
@@ -956,15 +976,23 @@ fn run_dwarf(base: &str, api: &str, secs: Secs, endian: RunTimeEndian, seed: u64
             ev["mout2"] = z;
             evs.push(ev);
         }
-        let mut ev = tag();
-        ev["ev"] = json!("ConvLineHeader");
-        ev["unit"] = json!(ui);
-        ev["again"] = again.clone();
-        let (x, y, z) = pick3(a.map(|u| &u.line_hdr), b.map(|u| &u.line_hdr), c3.map(|u| &u.line_hdr), &absent_line_hdr);
-        ev["min"] = x;
-        ev["mout"] = y;
-        ev["mout2"] = z;
-        evs.push(ev);
+        if nolines {
+            // the caller chose not to convert line programs
+            continue;
+        }
+        if retarget.is_none() {
+            // (a re-targeted header legitimately gains or loses the index-0 entries and the
+            // fields the other version cannot hold: only rows and file attributes are compared)
+            let mut ev = tag();
+            ev["ev"] = json!("ConvLineHeader");
+            ev["unit"] = json!(ui);
+            ev["again"] = again.clone();
+            let (x, y, z) = pick3(a.map(|u| &u.line_hdr), b.map(|u| &u.line_hdr), c3.map(|u| &u.line_hdr), &absent_line_hdr);
+            ev["min"] = x;
+            ev["mout"] = y;
+            ev["mout2"] = z;
+            evs.push(ev);
+        }
         let ns = [a, b, c3].iter().map(|u| u.map(|u| u.seqs.len()).unwrap_or(0)).max().unwrap_or(0);
         for si in 0..ns {
             let common = [a, b].iter().map(|u| u.map(|u| u.seqs.len()).unwrap_or(0)).min().unwrap_or(0);
@@ -973,7 +1001,7 @@ fn run_dwarf(base: &str, api: &str, secs: Secs, endian: RunTimeEndian, seed: u64
                 continue;
             }
             let mut ev = tag();
-            ev["ev"] = json!("ConvLineSeq");
+            ev["ev"] = json!(kseq);
             ev["unit"] = json!(ui);
             ev["seq"] = json!(si);
             ev["ins"] = a.map(|u| u.line_hdr["ins"].clone()).unwrap_or(json!([]));
@@ -1505,6 +1533,84 @@ fn gen_dwarf(seed: u64, endian: RunTimeEndian) -> Result<Secs, String> {
     Ok(sections_of(&sections))
 }
 
+/// Units whose point is the FILE TABLE: >= 2 extra directories, >= 3 files, rows that use
+/// every file, entries with DW_AT_decl_file / DW_AT_call_file for every file; or (`lines` =
+/// false) units without a line program whose entries carry file indices 0 / 1 / 7 all the same.
+/// Only attribute kinds every DWARF version can hold, so that re-targeting can succeed.
+fn gen_files(seed: u64, sv: u16, lines: bool, endian: RunTimeEndian) -> Result<Secs, String> {
+    let mut r = Rng::new(seed ^ 0x5151);
+    let mut dwarf = write::Dwarf::new();
+    for ui in 0..r.range(1, 2) {
+        let enc = Encoding { version: sv, format: if r.chance(1, 4) { Format::Dwarf64 } else { Format::Dwarf32 }, address_size: 8 };
+        let mut files: Vec<write::FileId> = Vec::new();
+        let lp = if lines {
+            let s = |b: &str| write::LineString::String(b.as_bytes().to_vec());
+            let mut p = write::LineProgram::new(enc, gimli::LineEncoding::default(), s("/work/dir"), None, s("main.c"), None);
+            let mut dirs = vec![p.default_directory()];
+            for k in 0..r.range(2, 3) {
+                dirs.push(p.add_directory(s(&format!("/inc/d{}", k))));
+            }
+            files.push(p.add_file(s("main.c"), dirs[0], None));
+            for k in 0..r.range(3, 5) {
+                files.push(p.add_file(s(&format!("h{}.h", k)), dirs[(k as usize + 1) % dirs.len()], None));
+            }
+            let mut base = 0x1000 * (ui + 1);
+            for _ in 0..r.range(1, 2) {
+                p.begin_sequence(Some(Address::Constant(base)));
+                let mut off = 0;
+                let start = r.below(files.len() as u64) as usize;
+                for k in 0..(files.len() + r.below(3) as usize) {
+                    let row = p.row();
+                    off += 1 + r.below(9);
+                    row.address_offset = off;
+                    row.line = 1 + r.below(500);
+                    row.file = files[(start + k) % files.len()];
+                    p.generate_row();
+                }
+                off += 4;
+                p.end_sequence(off);
+                base += off + 0x100;
+            }
+            p
+        } else {
+            write::LineProgram::none()
+        };
+        let id = dwarf.units.add(write::Unit::new(enc, lp));
+        let unit = dwarf.units.get_mut(id);
+        let root = unit.root();
+        {
+            let e = unit.get_mut(root);
+            e.set(c::DW_AT_name, write::AttributeValue::String(b"main.c".to_vec()));
+            e.set(c::DW_AT_comp_dir, write::AttributeValue::String(b"/work/dir".to_vec()));
+            e.set(c::DW_AT_low_pc, write::AttributeValue::Address(Address::Constant(0)));
+            if lines {
+                e.set(c::DW_AT_stmt_list, write::AttributeValue::LineProgramRef);
+            }
+        }
+        let all_zero = !lines && seed % 4 == 0 && sv <= 4;
+        let n = if lines { files.len() + 2 } else { 5 };
+        for k in 0..n {
+            let tag = if k % 3 == 2 { c::DW_TAG_inlined_subroutine } else { c::DW_TAG_variable };
+            let e = unit.add(root, tag);
+            let at = if tag == c::DW_TAG_variable { c::DW_AT_decl_file } else { c::DW_AT_call_file };
+            let v = if lines {
+                write::AttributeValue::FileIndex(Some(files[k % files.len()]))
+            } else if all_zero {
+                write::AttributeValue::Udata(0)
+            } else {
+                write::AttributeValue::Udata(*r.pick(&[0u64, 1, 1, 7]))
+            };
+            let ent = unit.get_mut(e);
+            ent.set(c::DW_AT_name, write::AttributeValue::String(format!("v{}", k).into_bytes()));
+            ent.set(at, v);
+            ent.set(c::DW_AT_decl_line, write::AttributeValue::Udata(10 + k as u64));
+        }
+    }
+    let mut sections = write::Sections::new(EndianVec::new(endian));
+    dwarf.write(&mut sections).map_err(|e| format!("{:?}", e))?;
+    Ok(sections_of(&sections))
+}
+
 fn gen_frame(seed: u64, endian: RunTimeEndian, eh: bool) -> Result<Vec<u8>, String> {
     let mut r = Rng::new(seed);
     let mut t = write::FrameTable::default();
@@ -1679,6 +1785,16 @@ fn replay(case: &J) -> J {
                     endian = RunTimeEndian::Big;
                 }
                 match std::panic::catch_unwind(move || gen_dwarf(seed, endian)).unwrap_or_else(|p| Err(format!("generator panic: {}", panic_msg(p)))) {
+                    Ok(s) => secs = s,
+                    Err(e) => {
+                        evs.push(json!({"ev":"GenFailed","what":"dwarf","base":base,"err":e}));
+                        return json!({"events": evs});
+                    }
+                }
+            } else if base == "genfiles" {
+                let sv = case["sv"].as_u64().unwrap_or(4) as u16;
+                let lines = case["lines"].as_bool().unwrap_or(true);
+                match std::panic::catch_unwind(move || gen_files(seed, sv, lines, endian)).unwrap_or_else(|p| Err(format!("generator panic: {}", panic_msg(p)))) {
                     Ok(s) => secs = s,
                     Err(e) => {
                         evs.push(json!({"ev":"GenFailed","what":"dwarf","base":base,"err":e}));
